@@ -50,3 +50,12 @@ add("C16", "exploration", "bounded-exhaustive enumeration of key strings x opera
 add("C17", "model_checking", "explicit-state breadth-first search over operation sequences on the real catalog, successors by replay (+ schedule exploration of concurrent operations, see DESIGN)",
     "BFS over 24 operations (4 keys x create schema 1|2, write year 2021|2022, destroy, query) to depth 3 (thorough 5) with de-duplication by canonical state (files, header schemas, directory tree); invariant in every state: catalog listing = device scan = freshly loaded catalog, every existing bucket queryable",
     TB + "; canonical state abstraction (stated in the evidence)", "seqmc")
+CR = TB + "; process-crash model = every completed syscall is in the image; scripted scheduler drives the real SyncWAL loop (BackgroundSync on) deterministically; payload tags attribute every recovered row to one issued write"
+add("C01", "fault_enumeration", "exhaustive enumeration of crash points (every device-operation prefix) of bounded write histories, restart through the real startup path",
+    "every history of <=2 (thorough <=3) operations over a 10-operation alphabet (fixed/variable/multi-bucket/new-bucket/new-year writes, WAL and checkpoint timer ticks, rotation interval 1|2) plus 8 curated longer ones, run on the real write path; for EVERY prefix of the device log the image is restarted (twice) and every acknowledged write must be returned", CR, "crashmc")
+add("C02", "fault_enumeration", "same crash-point enumeration as C01, oracle = no duplicate / phantom / partial transaction",
+    "same histories and crash points as C01; every recovered row must be attributable to an issued write, variable records appear exactly as often as written, an in-flight request is applied entirely or not at all, and a second restart changes nothing", CR, "crashmc")
+add("C03", "fault_enumeration", "crash-point enumeration plus power-loss pattern enumeration, oracle = restart succeeds and existing buckets stay queryable",
+    "the C01 crash points plus, for every prefix, every loss/tear pattern of the un-synced data writes (all subsets when <=6 are volatile; otherwise none/all/singletons/complements/per-file; tears at 512-byte boundaries and midpoints); startup must not panic/exit/fail and every bucket whose creating call had returned must answer an all-time query", CR + "; power-loss model: data volatile until fsync(file)/sync(), metadata journalled", "crashmc")
+add("C04", "fault_enumeration", "power-loss pattern enumeration over every crash prefix, oracle = acknowledged writes recovered",
+    "for every prefix of the device log of every history, every loss/tear pattern of the data writes not yet covered by fsync/sync (bounded as stated in the evidence) is applied, the server restarted and every acknowledged write must be returned", CR + "; power-loss model: data volatile until fsync(file)/sync(), metadata journalled, lost extension reads as zeros", "crashmc")
